@@ -2,7 +2,11 @@
 confirm.json: in a scratch worktree of /repo HEAD apply the patch, run the demo (must fail), run the full test
 suite (must pass up to the known baseline failures), revert, run the demo (must pass)."""
 import glob, json, os, re, subprocess, sys, time
-WT = "/tmp/confirm_wt"
+# usage: confirm_seeds.py [seed root (default /tmp/seed_out)] [worktree (default /tmp/confirm_wt)] [pytest workers (8)] [regex on dir]
+ROOT = sys.argv[1] if len(sys.argv) > 1 else "/tmp/seed_out"
+WT = sys.argv[2] if len(sys.argv) > 2 else "/tmp/confirm_wt"
+NW = sys.argv[3] if len(sys.argv) > 3 else "8"
+FILT = re.compile(sys.argv[4]) if len(sys.argv) > 4 else None
 ALLOWED = ("test_average_fidelity", "test_one_dimensional_cluster_tokyo", "test_default_sf_logger")
 def sh(cmd, **kw):
     return subprocess.run(cmd, shell=True, capture_output=True, text=True, **kw)
@@ -30,7 +34,7 @@ def one(d):
     res["demo_patched"] = rc1
     res["demo_patched_tail"] = out1[-300:]
     t0 = time.time()
-    r = sh(f"cd {WT} && PYTHONPATH={WT} /venv/bin/python -m pytest -q -p no:cacheprovider --timeout=900 --continue-on-collection-errors -n 8 2>&1 | tail -40")
+    r = sh(f"cd {WT} && PYTHONPATH={WT} /venv/bin/python -m pytest -q -p no:cacheprovider --timeout=900 --continue-on-collection-errors -n {NW} 2>&1 | tail -40")
     res["suite_s"] = round(time.time() - t0)
     fails = re.findall(r"^(?:FAILED|ERROR) (\S+)", r.stdout, re.M)
     res["suite_failures"] = fails
@@ -42,9 +46,10 @@ def one(d):
     return res
 if __name__ == "__main__":
     while not os.path.exists("/tmp/confirm_stop"):
-        todo = [os.path.dirname(p) for p in sorted(glob.glob("/tmp/seed_out/C*/[0-9]/patch.diff"))
+        todo = [os.path.dirname(p) for p in sorted(glob.glob(ROOT + "/C*/[0-9]/patch.diff"))
                 if os.path.exists(os.path.join(os.path.dirname(p), "demo.py")) and os.path.exists(os.path.join(os.path.dirname(p), "notes.md"))
-                and not os.path.exists(os.path.join(os.path.dirname(p), "confirm.json"))]
+                and not os.path.exists(os.path.join(os.path.dirname(p), "confirm.json"))
+                and (FILT is None or FILT.search(p))]
         if not todo:
             time.sleep(60)
             continue
